@@ -177,11 +177,13 @@ def r2(ctx: Ctx):
   for qn in ('LazyFn.result_', 'LazyObject.result_'):
     f2 = repo.func(LF, qn)
     g = cfgm.cfg_of(f2.node)
+    from mlmverif import pat
     c = [n for n in g.nodes if n.kind == 'cond' and unparse(n.ast) == 'self._lazy_result']
-    ok = c and any(isinstance(s.ast, ast.Assign) and unparse(s.ast.value) == 'LazyObject.new(result)'
-                   for n in c for s, lab in n.succ if lab == 'true')
+    wrapped = [pat.match('$r = LazyObject.new($r)', s.ast) for n in c for s, lab in n.succ
+               if lab == 'true' and s.ast is not None]
+    wrapped = [w for w in wrapped if w]
     rets = [n for n in g.nodes if isinstance(n.ast, ast.Return)]
-    ok = ok and rets and all(unparse(n.ast.value) == 'result' for n in rets)
+    ok = bool(wrapped) and rets and all(unparse(n.ast.value) == wrapped[0]['r'] for n in rets)
     if ok:
       ctx.ok(rule, f2, f'{qn}: lazy result wrapped, result returned', f2.node)
     else:
@@ -349,7 +351,11 @@ def r4(ctx: Ctx):
                'a result that is both lazy and cached is accepted', node=f.node)
   nw = repo.func(LF, 'LazyObject.new')
   t = unparse(nw.node)
-  if 'cache_insert(result, value)' in t and 'cls(value=None, _cache_result=True)' in t:
+  from mlmverif import pat
+  mk = pat.search(nw.node, '$r = cls(value=None, _cache_result=True)')
+  vp = nw.params()[1]
+  if mk and pat.has(nw.node, f'{mk[0][1]["r"]}.result_.cache_insert({mk[0][1]["r"]}, {vp})') and any(
+      isinstance(r_, ast.Return) and unparse(r_.value) == mk[0][1]['r'] for r_ in walk_no_nested(nw.node)):
     ctx.ok(rule, nw, 'cached LazyObject: value kept only in the cache', nw.node)
   else:
     ctx.fail(rule, nw, 'LazyObject.new(cache_result=True): cls(value=None, _cache_result=True) + cache_insert',
